@@ -98,6 +98,7 @@ func awsInstanceBody() *schema.BodySchema {
 			"cpu": {IsOptional: true, Description: md("cpu-desc"), Constraint: schema.AnyExpression{OfType: cty.Object(map[string]cty.Type{
 				"cores": cty.Number, "threads": cty.Number,
 			})}},
+			"pair":        {IsOptional: true, Description: md("pair-desc"), Constraint: schema.AnyExpression{OfType: cty.Tuple([]cty.Type{cty.String, cty.Number})}},
 			"private_ips": {IsOptional: true, Description: md("private_ips-desc"), Constraint: schema.AnyExpression{OfType: cty.List(cty.String)}},
 			"routes": {IsOptional: true, Description: md("routes-desc"), Constraint: schema.AnyExpression{OfType: cty.List(cty.Object(map[string]cty.Type{
 				"cidr": cty.String, "gateway": cty.String,
